@@ -142,13 +142,12 @@ func (c *context) SendMsg(m *protocol.Message) error {
 	bestEffort := c.bestEffort
 	tq := nilQ
 	cq := c.closeQ
-	s.Unlock()
-
 	if bestEffort {
 		tq = closedQ
 	} else if c.sendExpire > 0 {
 		tq = time.After(c.sendExpire)
 	}
+	s.Unlock()
 
 	m.Header = bt
 
